@@ -440,7 +440,7 @@ func init() {
 			return 14000
 		},
 		Run:      runC02,
-		Required: []string{"frames_decoded", "mask_keys_checked"},
+		Required: []string{"frames_decoded", "mask_keys_checked", "oversize_control_payloads_streamed_into_a_writer"},
 		Assumptions: []string{
 			"the mask-key source is observed through VerifMaskRand/VerifSetMaskRand: identity with crypto/rand.Reader is asserted once, then a forwarding tap records every byte drawn; the quality of crypto/rand itself is trusted",
 			"compressed payloads are inflated with the standard library inflater (not library code)",
